@@ -195,6 +195,51 @@ def one_copybook(ck: Check, root: Node, with_record: bool) -> None:
         ck.fail("extended-build", f"extended-vocabulary schema cannot be generated: {type(ex).__name__}: {str(ex)[:80]}", inp)
 
 
+EDITED = [("99/99/99", "12/01/25"), ("99B99", "12 34"), ("9(3),9(3)", "123,456"), ("$999", "$123"), ("**9", "**7"), ("999-", "123-"),
+          ("9(3)CR", "123CR"), ("99DB", "12DB"), ("XBX", "A B"), ("0099", "0012"), ("9(2).9(2)", "12.34"), ("-9(3)", "-123"), ("9V99-", "123-"),
+          ("A(3)", "abc"), ("X(2)9(2)", "AB12")]
+
+
+def edited_pictures(ck: Check) -> None:
+    """DISPLAY items whose picture is edited (insertion characters, trailing or leading sign symbols, CR / DB, zero, alphabetic): they are
+    text -- declared {"type": "string", "contentEncoding": "cp037"} without conversion, and delivered as the str that was stored"""
+    from stingray.cobol_parser import schema_iter
+    from stingray.schema_instance import EBCDIC, SchemaMaker
+
+    rng = ck.rng
+    for trial in range(3):
+        items = rng.sample(EDITED, rng.randint(4, len(EDITED)))
+        lines = ["       01  EDITED-REC."]
+        for k, (pic, _) in enumerate(items):
+            lines.append(f"           05  E-{k} PIC {pic}" + ("" if k % 2 else " USAGE DISPLAY") + ".")
+        text = "\n".join(lines) + "\n"
+        inp = {"copybook": text}
+        ck.case(("edited", text), feature="edited-pictures")
+        try:
+            doc = next(iter(schema_iter(io.StringIO(text))))
+            schema = SchemaMaker.from_json(doc)
+            rec = "".join(t for _, t in items).encode("cp037")
+            unp = EBCDIC()
+            nav = unp.nav(schema, rec)
+        except BaseException as ex:  # noqa: BLE001
+            ck.fail("edited-picture", f"record of edited DISPLAY items cannot be loaded / navigated: {err_enum(ex)}", inp)
+            continue
+        for k, (pic, stored) in enumerate(items):
+            d = doc["properties"][f"E-{k}"]
+            ck.oracle_evaluations += 1
+            got = (d.get("type"), d.get("contentEncoding"), d.get("conversion"))
+            if got != ("string", "cp037", None):
+                ck.fail("edited-picture", f"E-{k} PIC {pic}: an edited picture is text, the schema says {got}", {**inp, "item": f"E-{k}"})
+            try:
+                v = nav.name(f"E-{k}").value()
+            except BaseException as ex:  # noqa: BLE001
+                ck.fail("edited-picture", f"E-{k} PIC {pic} holding {stored!r}: reading the valid record raises {err_enum(ex)}", {**inp, "item": f"E-{k}"})
+                continue
+            if type(v) is not str or v != stored:
+                ck.fail("edited-picture", f"E-{k} PIC {pic}: declared a string, stored {stored!r}, delivered {v!r} ({type(v).__name__})",
+                        {**inp, "item": f"E-{k}"})
+
+
 def json_type_table(ck: Check) -> None:
     """both makers' json_type vs the model, over every usage spelling x pictures"""
     import stingray.cobol_parser as CP
@@ -221,6 +266,7 @@ def json_type_table(ck: Check) -> None:
 
 
 def explore(ck: Check, n: int) -> None:
+    edited_pictures(ck)
     rng = ck.rng
     json_type_table(ck)
     for i in range(n):
